@@ -16,7 +16,7 @@ PROP = dict(
     gen=dict(module="GenCodecs", cfg=dict(quick="GenCodecs_quick.cfg", thorough="GenCodecs_thorough.cfg"),
              workers=1, timeout=1500),
     level_text="Codecs.tla (EXTENDS Streams) models the byte-stream and text consumers/producers branch by branch in the code's "
-               "dispatch order over scripted readers (any chunking, zero-length reads, data+EOF, error at any offset, sticky) and "
+               "dispatch order over scripted readers (any chunking, zero-length reads, data+EOF, error at any offset and of any identity - io.ErrUnexpectedEOF, wrapped EOF, closed pipe, cancelled context, custom -, sticky) and "
                "scripted writers (accept k bytes, then fail), for every destination / source kind (interfaces, *string, *[]byte, "
                "named types, *interface{}, non-pointers, typed-nil, nil, unsupported) x closing option, and states C15 declaratively "
                "(bytes stored / written are exactly the bytes read / the source bytes; a read, write or (un)marshal error is never a "
